@@ -6,19 +6,18 @@ PROP = {
     "streams": [{"name": "broker", "harness": "umh_broker", "driver": "broker"}],
     "search_s": 300,
     "assumptions": [
-        "non-ordered mode only (enable_ordered_proxy = true is not modelled)",
+        "both modes of MetaStore are modelled (enable_ordered_proxy = false / true; a history of an ordered-mode broker starts with the pseudo-operation Op.setOrdered, see notes/ordered.md); about a quarter of the generated cases run MetaStore::new(true)",
         "HashMap-order dependent allocation choices are fed from the implementation and validated by the model's allowed-set check",
         "masters <= 16384 per cluster",
     ],
     "gaps": [
         "explicit hypothesis PlanBound: every cluster of every intermediate state has at most 16384 masters (necessary: with more masters the code cuts zero-length ranges, DESIGN F11)",
-        "ordered-proxy mode (enable_ordered_proxy = true) is not modelled; the quantifier of the property includes it",
     ],
 }
 
 CHECK = {
     "text": "Proved in Lean for every operation list (any order of create/scale/commit/failover/balance/config/delete, any allocation choice), every intermediate state, every migration limit: the store invariants PosInv/TwinInv/SlotInv hold and every served whole-cluster view is a PartitionView (each slot exactly one owner among stable+migrating ranges of masters, replicas own nothing, every migrating range has exactly one importing twin with identical range/epoch/addresses on the destination master); every per-proxy view is the projection of such a view and owns each slot once. Hypothesis: at most 16384 masters per cluster. Tie to the code: the hand-written broker model (every MetaStore mutator and query) is replayed against the real MetaStore on ~70k lines per run (full canonical store + digest of every served view for limits 0..2 after every op) and the partition oracle is evaluated on every served view for limits 0..3.",
     "design_ref": "§6 C01",
-    "note": "Trusted: Lean kernel; hand-written broker model (validated differentially each run); generated chunk index tables; allocation choices taken from the implementation and checked against the model's allowed set; ordered-proxy mode unmodelled.",
+    "note": "Trusted: Lean kernel; hand-written broker model (validated differentially each run); generated chunk index tables; allocation choices taken from the implementation and checked against the model's allowed set; both proxy-allocation modes (enable_ordered_proxy off/on) modelled.",
     "technique": "Lean 4 invariant proofs over a broker state-machine model + differential correspondence with the real MetaStore",
 }
